@@ -357,6 +357,38 @@ func (w *World) exec(e Event) Result {
 		})
 		r.Same = same
 		return r
+	case "ForkImport":
+		// lock-step variant: the trace continues on the ORIGINAL state; a sibling branch gets the re-imported module.
+		// Both are branches of the frozen current state so that neither sees the other's writes.
+		base := w.Ctx
+		a, _ := base.CacheContext()
+		b, _ := base.CacheContext()
+		same := false
+		var res Result
+		func() {
+			defer func() {
+				if rec := recover(); rec != nil {
+					res = Result{Panic: true, Err: fmt.Sprint(rec)}
+				}
+			}()
+			var err error
+			same, err = w.exportImport(b)
+			if err != nil {
+				res = Result{Err: err.Error()}
+				return
+			}
+			res = Result{Ok: true}
+		}()
+		res.Same = same
+		w.Ctx = a
+		if res.Ok {
+			w.mirror = &b
+			w.mirrorDon = map[string]math.Int{}
+			for k, v := range w.Donated {
+				w.mirrorDon[k] = v
+			}
+		}
+		return res
 	}
 	panic("unknown event " + e.Ev)
 }
@@ -506,4 +538,19 @@ func (w *World) ExecDet(e Event, k int) Result {
 		res.DetDiff = digests[0][:16] + " vs " + digests[len(digests)-1][:16]
 	}
 	return res
+}
+
+// ExecMirror executes e on the re-imported sibling branch (if there is one) and returns its result and projection.
+func (w *World) ExecMirror(e Event) []Mirror {
+	if w.mirror == nil || e.Ev == "ForkImport" || e.Ev == "ExportImport" {
+		return []Mirror{}
+	}
+	mainCtx, mainDon := w.Ctx, w.Donated
+	w.Ctx, w.Donated = *w.mirror, w.mirrorDon
+	res := w.Exec(e)
+	post := w.Project(w.Ctx)
+	m := w.Ctx
+	w.mirror, w.mirrorDon = &m, w.Donated
+	w.Ctx, w.Donated = mainCtx, mainDon
+	return []Mirror{{Res: res, Post: post}}
 }
